@@ -63,8 +63,24 @@ macro_rules! record {
             ds.read_slice(&mut o, 0).expect("harness: read");
             o
         };
+        // the element-wise slice copies on a slice that starts at an odd host address: wire bytes from its first byte on
+        let mut cbuf = [0x55u8; 3 * SZ + 4];
+        let cfb: Vec<u8> = {
+            let whole = VolatileSlice::from(&mut cbuf[..]);
+            let base_odd = (whole.ptr_guard().as_ptr() as usize) % 2;
+            let s = whole.subslice(2 - base_odd + 1, 3 * SZ).expect("harness: subslice"); // an odd address
+            s.copy_from(&[x, x, x]);
+            let mut back = [<$W>::from(0 as $N); 3];
+            let got = s.copy_to(&mut back);
+            let mut o = vec![0u8; 3 * SZ];
+            s.read_slice(&mut o, 0).expect("harness: read");
+            if got != 3 || back.iter().any(|b| b.to_native() != v) {
+                o[0] ^= 0xff; // the round trip through copy_to is part of the record: a wrong one spoils the bytes
+            }
+            o
+        };
         json!({
-            "gm": gmb, "arr": arrb,
+            "gm": gmb, "arr": arrb, "cf": cfb,
             "mem": ByteValued::as_slice(&x),
             "native": native.to_be_bytes(),
             "into": via_into.to_be_bytes(),
